@@ -33,7 +33,10 @@
 (*           W as rationals, p* uniform, the output distribution under p*. *)
 (*                                                                         *)
 (* The option combinations every routine is run with are printed as well   *)
-(* (kind "options").                                                       *)
+(* (kind "options"): epsilon = 10^-epsexp; maxit 3 / -1 (the default, or a *)
+(* large routine-specific cap for the slowly converging routines);         *)
+(* hookstop -1: no hook, 0: a hook that never stops, k: a hook that asks   *)
+(* to stop at its k-th call; cons: none / box / half.                      *)
 (***************************************************************************)
 EXTENDS Rat, FiniteSets, SequencesExt, Json
 
@@ -137,27 +140,27 @@ LogCase(a, lam, m) ==
       ms == [i \in 1..n |-> RInt(m[i])]
       s2 == RSumSeq([i \in 1..Len(a) |-> RInt(Sum(n, LAMBDA j : a[i][j] * a[i][j]))])
       lip == RAdd(RDiv(s2, RInt(2)), lam)
-  IN [kind |-> "logistic", n |-> n, a |-> a, lambda |-> lam, m |-> ms, xstar |-> ms,
+  IN [kind |-> "logistic", n |-> n, data |-> a, lambda |-> lam, m |-> ms, xstar |-> ms,
       invb2 |-> RDiv(ROne, RMul(lam, lam)), lip2 |-> RMul(lip, lip), sc |-> TRUE, starts |-> StartRecs(n, ms)]
 LogCases == {LogCase(a, lam, m) : a \in DataSets, lam \in Lambdas, m \in Shifts2}
 
 RosenCase(a, b) == LET xs == <<RInt(a), RInt(a * a)>> IN
-  [kind |-> "rosen", n |-> 2, a |-> a, b |-> b, xstar |-> xs, invb2 |-> RZero, lip2 |-> RZero, sc |-> FALSE,
+  [kind |-> "rosen", n |-> 2, ra |-> a, rb |-> b, xstar |-> xs, invb2 |-> RZero, lip2 |-> RZero, sc |-> FALSE,
    starts |-> StartRecs(2, xs)]
 RosenCases == {RosenCase(a, b) : a \in {1, 2}, b \in {1, 10, 100}}
 
 (* polynomial systems with planted roots: F(r) = 0 is checked on the model *)
 Pow(x, k) == IF k = 2 THEN x * x ELSE x * x * x
-Poly1Case(a, k) == [kind |-> "polyroot", n |-> 1, form |-> "power", a |-> a, b |-> 0, k |-> k,
+Poly1Case(a, k) == [kind |-> "polyroot", n |-> 1, form |-> "power", ra |-> a, rb |-> 0, deg |-> k,
                     roots |-> IF k = 2 THEN << <<a>>, <<0 - a>> >> ELSE << <<a>> >>,
                     xstar |-> <<RInt(a)>>, invb2 |-> RZero, lip2 |-> RZero, sc |-> FALSE, starts |-> StartRecs(1, <<RInt(a)>>)]
-Poly2Case(a, b) == [kind |-> "polyroot", n |-> 2, form |-> "pair", a |-> a, b |-> b, k |-> 2,
+Poly2Case(a, b) == [kind |-> "polyroot", n |-> 2, form |-> "pair", ra |-> a, rb |-> b, deg |-> 2,
                     roots |-> << <<a, b>>, <<0 - a, 0 - b>> >>,
                     xstar |-> <<RInt(a), RInt(b)>>, invb2 |-> RZero, lip2 |-> RZero, sc |-> FALSE,
                     starts |-> StartRecs(2, <<RInt(a), RInt(b)>>)]
 PolyCases == {Poly1Case(a, k) : a \in {1, 2}, k \in {2, 3}} \cup {Poly2Case(a, b) : a \in {1, 2}, b \in {-1, 2}}
-PolyResidual(p, r) == IF p.form = "power" THEN <<Pow(r[1], p.k) - Pow(p.a, p.k)>>
-                      ELSE <<r[1] * r[1] - p.a * p.a, r[1] * r[2] - p.a * p.b>>
+PolyResidual(p, r) == IF p.form = "power" THEN <<Pow(r[1], p.deg) - Pow(p.ra, p.deg)>>
+                      ELSE <<r[1] * r[1] - p.ra * p.ra, r[1] * r[2] - p.ra * p.rb>>
 PolyCertificate(p) == \A i \in 1..Len(p.roots) : \A j \in 1..p.n : PolyResidual(p, p.roots[i])[j] = 0
 
 (* channels: W[x][y] = P(y | x) *)
@@ -188,7 +191,7 @@ ChanCertificate(c) ==
 
 (* ------------------------- option combinations ------------------------- *)
 Options == [kind |-> "options",
-            combos |-> SetToSeq([epsexp : {6, 10}, maxit : {3, -1}, hookstop : {0, 1, 3}, cons : {"none", "box", "half"}])]
+            combos |-> SetToSeq([epsexp : {6, 10}, maxit : {3, -1}, hookstop : {-1, 0, 1, 3}, cons : {"none", "box", "half"}])]
 
 (* ------------------------------ enumeration ---------------------------- *)
 Init == \/ case \in {q \in QuadCases : WellConditioned(q)}
